@@ -344,3 +344,9 @@ def r05_7(ctx):
     for cname in ("MultipleShooting", "SingleShooting"):
         shooting_content(ctx, cname)
     collocation_content(ctx)
+
+
+@rule("R05.8", min_instances=4, desc="objective terms added on a sub-stage after a solve reach the next solve (invalidation flag of the master, shared with C13)")
+def r05_8(ctx):
+    from .c13 import r13_7
+    r13_7(ctx)
